@@ -124,6 +124,13 @@ pub fn enabled<P: Proto>(w: &ClientWorld<P>, cfg: &Cfg) -> Vec<(CAct, u8)> {
                         // the largest packet id in an inbound QoS 2 flow
                         v.push((CAct::B(inbound(2, 65535, 402)), 0));
                         v.push((CAct::B(Pk::PubRel(65535, 0)), 0));
+                        // a publish that has to be answered and, in the same read batch, a
+                        // packet that ends the connection with an error
+                        v.push((CAct::Batch(vec![inbound(1, 1, 410), Pk::PubAck(lim + 1, 0)]), 1));
+                        v.push((CAct::Batch(vec![inbound(2, 2, 411), Pk::PubComp(lim + 1, 0)]), 1));
+                        if cfg.v5 {
+                            v.push((CAct::Batch(vec![inbound(1, 1, 412), Pk::Disconnect]), 1));
+                        }
                     }
                     2 => {
                         // read batches around the 10-packet limit, and a half-written packet
